@@ -605,7 +605,17 @@ pub fn c13(ctx: &mut Ctx) {
                 }
             }
         }
-        ctx.bound("reports with extensions", "SR / RR with {0,1,2} blocks and a profile-specific extension of {1,6,7} words x all 63 paddings");
+        // BYE whose reason is present with length zero (a length byte 0 and three fill bytes): legal, never written by
+        // the crate's builder; whatever reason() answers for it, padding must not change the answer
+        for n in [0u8, 1, 2, 31] {
+            let mut img = vec![0x80 | n, 203, 0, n + 1];
+            for i in 0..n {
+                img.extend_from_slice(&[0x10 + i, 2, 3, 4]);
+            }
+            img.extend_from_slice(&[0, 0, 0, 0]);
+            ext_imgs.push((img, "Bye"));
+        }
+        ctx.bound("reports with extensions", "SR / RR with {0,1,2} blocks and a profile-specific extension of {1,6,7} words, BYE with an explicit zero-length reason, x all 63 paddings");
         ctx.run_space("padding-transparency-reports-with-extension", ext_imgs.len() as u64 * 63, |idx, l| {
             let (img, ty) = &ext_imgs[(idx / 63) as usize];
             transparency_case(l, img, (4 * (idx % 63 + 1)) as u8, "report-with-extension", ty, "");
